@@ -6,6 +6,8 @@ use std::cell::Cell;
 use std::time::Duration;
 
 pub const TIER_NAME: &str = "real-threads (black-box fallback, no schedule control)";
+/// all tasks of one execution run on the same OS thread (thread-local counters see the whole execution)
+pub const SINGLE_OS_THREAD: bool = false;
 pub const WORK_DIVISOR: u64 = 25;
 
 thread_local! {
